@@ -50,6 +50,7 @@ public:
                  * clear for preventing heap use after free by reference of
                  * need_delete
                  */
+                YAKUSHIMA_VERIF_HOOK(YAKUSHIMA_VERIF_STORE, &lv_.at(pos));
                 lv_.at(pos).init_lv();
             }
         }
@@ -150,6 +151,7 @@ public:
                         prev->lock();
                         if (prev->get_version_deleted() || prev != get_prev()) {
                             prev->version_unlock();
+                            YAKUSHIMA_VERIF_HOOK(YAKUSHIMA_VERIF_RETRY, this);
                             goto retry_prev_lock; // NOLINT
                         } else {
                             prev->set_next(get_next());
@@ -454,6 +456,7 @@ public:
      */
     void init_border(const std::size_t pos) {
         init_base(pos);
+        YAKUSHIMA_VERIF_HOOK(YAKUSHIMA_VERIF_STORE, &lv_.at(pos));
         lv_.at(pos).init_lv();
     }
 
